@@ -7,6 +7,7 @@ use crate::hist::{self, HistCfg, Op, Oracles, Scenario};
 use crate::memsys::ClockModel;
 use crate::report::{self, Report, Violation};
 use crate::scen;
+use crate::schedeng::{self, ExploreCfg, SchedCase};
 
 pub fn threads() -> usize
 {
@@ -90,7 +91,7 @@ pub fn run_hist_plans(rep: &mut Report, id: &str, plans: Vec<HistPlan>)
             let mut ok = 0;
             for _ in 0..2
             {
-                let (fs, _fail, _st) = hist::replay_history(&p.scenario, p.clock, &or, p.paired, false, path);
+                let (fs, _fail, _st) = hist::replay_history(&p.scenario, p.clock, &or, p.paired, p.c10, path);
                 if fs.iter().any(|(_, g)| hist::finding_signature(&p.scenario, p.clock, g) == sig) { ok += 1; }
             }
             if ok != 2
@@ -133,6 +134,228 @@ pub fn run_hist_plans(rep: &mut Report, id: &str, plans: Vec<HistPlan>)
     rep.set("per_scenario", json!(per));
 }
 
+
+#[derive(Clone, Debug)]
+pub struct Phase
+{
+    pub label: &'static str,
+    pub por: bool,
+    pub bound: Option<usize>,
+    pub secs: f64,
+}
+
+pub fn phases(tier: &str) -> Vec<Phase>
+{
+    if tier == "thorough"
+    {
+        vec![
+            Phase { label: "preemption-bound-0", por: false, bound: Some(0), secs: 20.0 },
+            Phase { label: "preemption-bound-1", por: false, bound: Some(1), secs: 40.0 },
+            Phase { label: "dpor-unbounded", por: true, bound: None, secs: 120.0 },
+            Phase { label: "preemption-bound-2", por: false, bound: Some(2), secs: 60.0 },
+        ]
+    }
+    else
+    {
+        vec![
+            Phase { label: "preemption-bound-0", por: false, bound: Some(0), secs: 0.6 },
+            Phase { label: "dpor-unbounded", por: true, bound: None, secs: 3.0 },
+            Phase { label: "preemption-bound-1", por: false, bound: Some(1), secs: 0.8 },
+        ]
+    }
+}
+
+/// Explore every case in phases: plain preemption-bounded enumeration with small bounds
+/// first (so the first counterexample has the fewest preemptions), then the unbounded
+/// search with sleep sets.  Fills the report.
+pub fn run_sched_plans(rep: &mut Report, id: &str, cases: Vec<SchedCase>, phases: Vec<Phase>, or: Oracles)
+{
+    let c03 = id == "C03";
+    let mut total_sched = 0u64;
+    let mut total_states = 0u64;
+    let mut per = vec![];
+    let mut all_complete = true;
+    let mut distinct_outcomes_total = 0u64;
+    for case in cases
+    {
+        let prep = match schedeng::prepare(&case)
+        {
+            Ok(p) => p,
+            Err(e) => { rep.machinery(format!("case {}: pre-history failed: {}", case.name, e)); continue; },
+        };
+        let mut per_phase = vec![];
+        let mut merged = schedeng::CaseResult::default();
+        let mut por_complete = false;
+        let mut unreduced_outcomes: std::collections::BTreeSet<String> = Default::default();
+        let mut unreduced_states: std::collections::BTreeSet<[u8; 16]> = Default::default();
+        let mut por_outcomes: std::collections::BTreeSet<String> = Default::default();
+        let mut por_states: std::collections::BTreeSet<[u8; 16]> = Default::default();
+        let mut largest_bound: Option<usize> = None;
+        for ph in phases.iter()
+        {
+            let deadline = Instant::now() + Duration::from_millis((ph.secs * 1000.0) as u64);
+            let cfg = ExploreCfg { por: ph.por, bound: ph.bound, threads: threads(), deadline, max_schedules: 100_000_000, oracles: or.clone(), c03, c04_history: id == "C04" };
+            let r = schedeng::explore(&case, &prep, &cfg);
+            let capped = r.cap_hit;
+            per_phase.push(json!({"phase": ph.label, "executions": r.schedules, "complete": !capped,
+                "distinct_outcomes": r.outcomes.len(), "distinct_end_states": r.end_states.len()}));
+            total_sched += r.schedules;
+            if ph.por
+            {
+                if !capped { por_complete = true; }
+                por_outcomes.extend(r.outcomes.keys().cloned());
+                por_states.extend(r.end_states.iter().cloned());
+            }
+            else
+            {
+                if !capped { largest_bound = Some(largest_bound.map(|b| b.max(ph.bound.unwrap_or(0))).unwrap_or(ph.bound.unwrap_or(0))); }
+                unreduced_outcomes.extend(r.outcomes.keys().cloned());
+                unreduced_states.extend(r.end_states.iter().cloned());
+            }
+            let found = !r.findings.is_empty() || !r.failures.is_empty() || r.outcomes.len() > 1;
+            merged.max_points = merged.max_points.max(r.max_points);
+            merged.max_steps = merged.max_steps.max(r.max_steps);
+            for (k, (n, ex)) in r.outcomes { let e = merged.outcomes.entry(k).or_insert((0, ex)); e.0 += n; }
+            merged.end_states.extend(r.end_states);
+            merged.findings.extend(r.findings);
+            merged.failures.extend(r.failures);
+            merged.harness_errors.extend(r.harness_errors);
+            merged.schedules += r.schedules;
+            if found { break; }
+        }
+        // self-check of the reduction: whatever plain enumeration reached, the complete reduced search reached too
+        if por_complete
+        {
+            for k in unreduced_outcomes.iter()
+            {
+                if !por_outcomes.contains(k) { rep.machinery(format!("case {}: outcome {:?} found by plain enumeration but not by the complete DPOR search", case.name, k)); }
+            }
+            for k in unreduced_states.iter()
+            {
+                if !por_states.contains(k) { rep.machinery(format!("case {}: an end state found by plain enumeration was not reached by the complete DPOR search", case.name)); }
+            }
+        }
+        let clean = merged.findings.is_empty() && merged.failures.is_empty() && merged.outcomes.len() <= 1;
+        if clean && !por_complete { all_complete = false; }
+        let r = merged;
+        total_states += r.end_states.len() as u64;
+        distinct_outcomes_total += r.outcomes.len() as u64;
+        for e in &r.harness_errors
+        {
+            rep.machinery(format!("case {}: {}", case.name, e));
+        }
+        per.push(json!({
+            "case": case.name,
+            "pre_history": hist::ops_short(&case.pre),
+            "operation": case.op.short(),
+            "phases": per_phase,
+            "all_interleavings_covered_up_to_commutation": por_complete,
+            "largest_plain_preemption_bound_completed": largest_bound,
+            "max_choice_points": r.max_points,
+            "max_scheduling_points": r.max_steps,
+            "outcomes": schedeng::outcomes_json(&r),
+        }));
+        if let Some((_k, (_n, ex))) = r.outcomes.iter().next()
+        {
+            rep.push_sample(json!({"case": case.name, "pre_history": hist::ops_short(&case.pre), "operation": case.op.short(), "schedule_choices": ex}));
+        }
+        // findings of this property
+        let mut seen = std::collections::BTreeSet::new();
+        for (choices, f) in r.findings.iter()
+        {
+            if f.property != id { continue; }
+            let sig = schedeng::finding_signature(&case, f);
+            if !seen.insert(sig.clone()) { continue; }
+            let mut ok = 0;
+            for _ in 0..2
+            {
+                let (res, _o) = schedeng::run_schedule(&case, &prep, &or, c03, choices.clone());
+                if let Some((_k, fs)) = res
+                {
+                    if fs.iter().any(|g| schedeng::finding_signature(&case, g) == sig) { ok += 1; }
+                }
+            }
+            if ok != 2
+            {
+                rep.machinery(format!("finding {:?} did not reproduce on replay of schedule {:?} ({}/2)", sig, choices, ok));
+                continue;
+            }
+            rep.violation(schedeng::to_violation(&case, choices, f, c03));
+        }
+        if id == "C05"
+        {
+            let mut seen = std::collections::BTreeSet::new();
+            for (choices, msg) in r.failures.iter()
+            {
+                let what = format!("{}", first_line(msg));
+                let sig = format!("C05:sched:{}:{}", case.name, what);
+                if !seen.insert(sig.clone()) { continue; }
+                let mut ok = 0;
+                for _ in 0..2
+                {
+                    let (_res, o) = schedeng::run_schedule(&case, &prep, &or, false, choices.clone());
+                    if o.failure.as_ref().map(|m| first_line(m) == what).unwrap_or(false) { ok += 1; }
+                }
+                if ok != 2
+                {
+                    rep.machinery(format!("failure {:?} did not reproduce on replay of schedule {:?} ({}/2)", sig, choices, ok));
+                    continue;
+                }
+                rep.violation(Violation
+                {
+                    property: "C05".into(),
+                    signature: sig,
+                    summary: format!("case {} schedule {:?}: {}", case.name, choices, msg),
+                    replay: json!({"engine": "sched", "case": case.name, "choices": choices, "what": what, "c03": false}),
+                });
+            }
+        }
+        if id == "C06" && r.outcomes.len() > 1
+        {
+            let keys: Vec<String> = r.outcomes.keys().map(|k| k.split(" | ").next().unwrap_or("").chars().take(200).collect()).collect();
+            let examples: Vec<&Vec<u8>> = r.outcomes.values().map(|(_n, ex)| ex).collect();
+            // confirm: the two example schedules reproduce two different outcomes, twice
+            let mut ok = true;
+            for _ in 0..2
+            {
+                let a = schedeng::run_schedule(&case, &prep, &or, false, examples[0].clone());
+                let b = schedeng::run_schedule(&case, &prep, &or, false, examples[1].clone());
+                let (ar, ao) = a;
+                let (br, bo) = b;
+                let ka = match ar { Some(x) => x.0, None => format!("FAILED: {}", first_line(&ao.failure.unwrap_or_default())) };
+                let kb = match br { Some(x) => x.0, None => format!("FAILED: {}", first_line(&bo.failure.unwrap_or_default())) };
+                if ka == kb { ok = false; }
+            }
+            if !ok
+            {
+                rep.machinery(format!("case {}: differing outcomes did not reproduce", case.name));
+            }
+            else
+            {
+                let mut verdicts: Vec<String> = keys.clone();
+                verdicts.sort();
+                verdicts.dedup();
+                rep.violation(Violation
+                {
+                    property: "C06".into(),
+                    signature: format!("C06:sched:{}:outcome depends on the schedule: {}", case.name, verdicts.join(" / ")),
+                    summary: format!("case {} [{} then {}]: {} distinct outcomes over {} schedules: {:?}", case.name, hist::ops_short(&case.pre), case.op.short(),
+                        r.outcomes.len(), r.schedules, r.outcomes.iter().map(|(k, (n, _))| format!("{} x{}", k, n)).collect::<Vec<_>>()),
+                    replay: json!({"engine": "sched", "case": case.name, "choices": examples[1], "other_choices": examples[0], "what": "outcome differs", "c03": false}),
+                });
+            }
+        }
+    }
+    rep.add("schedules", total_sched);
+    rep.add("states", total_states);
+    rep.add("transitions", total_sched);
+    rep.add("traces_validated_against_impl", total_sched);
+    rep.add("distinct_outcomes", distinct_outcomes_total);
+    let prev = rep.coverage.get("exhaustive").and_then(|v| v.as_bool()).unwrap_or(true);
+    rep.set("exhaustive", json!(prev && all_complete));
+    rep.set("per_case", json!(per));
+}
+
 pub fn first_line(s: &str) -> String
 {
     s.lines().next().unwrap_or("").chars().take(160).collect()
@@ -162,6 +385,132 @@ fn check(id: &str, tier: &str) -> i32
             }
             run_hist_plans(&mut rep, id, plans);
         },
+        "C02" =>
+        {
+            rep.assume("as C01; the must-not-run obligation is asserted only when the harness's own record shows an earlier successful execution on identical sources, the needed contents were in the cache before the build, and no cache content is needed by two targets at once");
+            let mut plans = vec![];
+            for (sc, q, t) in vec![(scen::s1_chain(), 4, 6), (scen::s3_multi(), 4, 5), (scen::s2_diamond(), 3, 5), (scen::s4_twins(), 4, 5), (scen::s5_variants(), 4, 6)]
+            {
+                let mut p = plan(sc, tiered(tier, q, t));
+                p.secs = secs;
+                plans.push(p);
+            }
+            run_hist_plans(&mut rep, id, plans);
+        },
+        "C07" | "C08" =>
+        {
+            rep.assume("strict clock (distinct writes carry distinct mtimes); commands write atomically and deterministically; a failing command writes nothing");
+            let mut plans = vec![];
+            for (sc, q, t) in vec![(scen::s1_chain(), 4, 6), (scen::s3_multi(), 4, 5), (scen::s4_twins(), 4, 6), (scen::s5_variants(), 4, 6), (scen::s6_exec(), 4, 6), (scen::s8_failures(), 4, 6)]
+            {
+                let mut p = plan(sc, tiered(tier, q, t));
+                p.secs = secs;
+                plans.push(p);
+            }
+            run_hist_plans(&mut rep, id, plans);
+        },
+        "C09" =>
+        {
+            rep.assume("scope (goal's rule and its ancestors) is computed from the scenario structure, not from ruler's sorter; commands are exempt");
+            let mut plans = vec![];
+            for (sc, q, t) in vec![(scen::s9_scope(), 3, 5), (scen::s3_multi(), 3, 5), (scen::s8_failures(), 3, 5)]
+            {
+                let mut p = plan(sc, tiered(tier, q, t));
+                p.secs = secs;
+                plans.push(p);
+            }
+            run_hist_plans(&mut rep, id, plans);
+        },
+        "C10" =>
+        {
+            rep.assume("'up to date before the clean' = targets equal the reference values and ruler's own immediate rebuild runs nothing; probes: clean(g) then build(g') for every goal pair at every reached state");
+            let mut plans = vec![];
+            for (sc, q, t) in vec![(scen::s6_exec(), 3, 5), (scen::s3_multi(), 3, 4), (scen::s4_twins(), 3, 5), (scen::s1_chain(), 3, 5)]
+            {
+                let mut p = plan(sc, tiered(tier, q, t));
+                p.secs = secs;
+                p.c10 = true;
+                plans.push(p);
+            }
+            run_hist_plans(&mut rep, id, plans);
+        },
+        "C17" =>
+        {
+            rep.assume("the undeclared input is an ordinary file the command reads; 'recorded before' is read from ruler's own history file through mirror serde types");
+            let mut plans = vec![];
+            for m in 0..4
+            {
+                let mut p = plan(scen::s7_undeclared(m), tiered(tier, 5, 7));
+                p.secs = secs;
+                plans.push(p);
+            }
+            run_hist_plans(&mut rep, id, plans);
+        },
+        "C18" =>
+        {
+            rep.assume("product search: every op is applied to two worlds, the second has .ruler/current_file_states removed before every build; clock models: strict (every write a fresh tick) and coarse (one tick per user action or ruler invocation)");
+            let mut plans = vec![];
+            for clock in [ClockModel::Strict, ClockModel::Coarse]
+            {
+                for (sc, q, t) in vec![(scen::s3_c18(), 8, 10), (scen::s4_c18(), 6, 8)]
+                {
+                    let mut p = plan(sc, tiered(tier, q, t));
+                    p.clock = clock;
+                    p.paired = true;
+                    p.secs = secs;
+                    plans.push(p);
+                }
+            }
+            run_hist_plans(&mut rep, id, plans);
+        },
+        "C20" =>
+        {
+            rep.assume("Built = the rule's command is in this build's command log; Recovered = a rename from .ruler/cache onto the target; Up-to-date = no mutation touched the target");
+            let mut plans = vec![];
+            for (sc, q, t) in vec![(scen::s1_chain(), 4, 6), (scen::s3_multi(), 4, 5), (scen::s4_twins(), 4, 5), (scen::s6_exec(), 4, 5), (scen::s8_failures(), 4, 5)]
+            {
+                let mut p = plan(sc, tiered(tier, q, t));
+                p.secs = secs;
+                plans.push(p);
+            }
+            run_hist_plans(&mut rep, id, plans);
+        },
+        "C03" =>
+        {
+            rep.assume("scheduling points: spawn, join, thread exit, channel send/receive, every System call on a cache path or on a target that is another rule's source, and the start of every command; commands themselves are atomic");
+            let cases = schedeng::success_cases(tier);
+            run_sched_plans(&mut rep, id, cases, phases(tier), Oracles::default());
+        },
+        "C04" =>
+        {
+            rep.assume("failing commands are `false` (write nothing); expected errors come from the reference evaluator; order of errors is not compared");
+            let mut cases = schedeng::failure_cases(tier);
+            cases.extend(schedeng::success_cases(tier).into_iter().filter(|c| c.name.starts_with("diamond/fresh") || c.name.starts_with("multi/fresh")));
+            run_sched_plans(&mut rep, id, cases, phases(tier), Oracles::only("C04"));
+            // follow-up histories (repair the cause, build again; break it again)
+            let mut plans = vec![];
+            for (sc, q, t) in vec![(scen::s8_failures(), 4, 6), (scen::s1_chain(), 3, 5)]
+            {
+                let mut p = plan(sc, tiered(tier, q, t));
+                p.secs = secs;
+                plans.push(p);
+            }
+            run_hist_plans(&mut rep, id, plans);
+        },
+        "C05" =>
+        {
+            rep.assume("shuttle reports 'no runnable task but unfinished tasks' as deadlock; a step cap of 200000 scheduling points stands in for livelock (ruler has no spin loops)");
+            let mut cases = schedeng::success_cases(tier);
+            cases.extend(schedeng::failure_cases(tier));
+            run_sched_plans(&mut rep, id, cases, phases(tier), Oracles::default());
+        },
+        "C06" =>
+        {
+            rep.assume("outcome = (verdict, bytes of every workspace file outside .ruler); cache contents, mtimes, permissions and status lines are not part of it");
+            let mut cases = schedeng::success_cases(tier);
+            cases.extend(schedeng::failure_cases(tier));
+            run_sched_plans(&mut rep, id, cases, phases(tier), Oracles::default());
+        },
         _ =>
         {
             eprintln!("unknown or unimplemented property {}", id);
@@ -189,7 +538,7 @@ fn replay(path: &str) -> i32
             let paired = r["paired"].as_bool().unwrap_or(false);
             let ops: Vec<Op> = serde_json::from_value(r["ops"].clone()).unwrap_or_default();
             let or = Oracles::only(&prop);
-            let (fs, fail, st) = hist::replay_history(&sc, clock, &or, paired, false, &ops);
+            let (fs, fail, st) = hist::replay_history(&sc, clock, &or, paired, prop == "C10", &ops);
             println!("replayed [{}]", hist::ops_short(&ops));
             println!("final workspace: {:?}", crate::world::workspace_view(&st.fs));
             if let Some(f) = fail
@@ -215,6 +564,45 @@ fn replay(path: &str) -> i32
                 println!("no violation of {} on this trace", prop);
                 0
             }
+        },
+        "sched" =>
+        {
+            let case = match schedeng::case_by_name(r["case"].as_str().unwrap_or(""))
+            {
+                Some(c) => c,
+                None => { eprintln!("unknown case"); return 2; },
+            };
+            let prep = match schedeng::prepare(&case)
+            {
+                Ok(p) => p,
+                Err(e) => { eprintln!("pre-history failed: {}", e); return 2; },
+            };
+            let choices: Vec<u8> = serde_json::from_value(r["choices"].clone()).unwrap_or_default();
+            let c03 = r["c03"].as_bool().unwrap_or(false);
+            let mut or = Oracles::only(&prop);
+            if prop == "C05" || prop == "C06" || prop == "C03" { or = Oracles::default(); }
+            let (res, o) = schedeng::run_schedule(&case, &prep, &or, c03, choices.clone());
+            println!("case {}: [{}] then {} under schedule {:?}", case.name, hist::ops_short(&case.pre), case.op.short(), choices);
+            let mut hit = false;
+            let key = match &res { Some((k, _)) => k.clone(), None => format!("FAILED: {}", first_line(&o.failure.clone().unwrap_or_default())) };
+            println!("outcome: {}", key);
+            if let Some((_k, fs)) = &res
+            {
+                for f in fs
+                {
+                    if f.property == prop { hit = true; println!("{}: {} — {}", f.property, f.what, f.detail); }
+                }
+            }
+            if prop == "C05" && o.failure.is_some() { hit = true; }
+            if prop == "C06"
+            {
+                let other: Vec<u8> = serde_json::from_value(r["other_choices"].clone()).unwrap_or_default();
+                let (res2, o2) = schedeng::run_schedule(&case, &prep, &or, false, other.clone());
+                let key2 = match &res2 { Some((k, _)) => k.clone(), None => format!("FAILED: {}", first_line(&o2.failure.clone().unwrap_or_default())) };
+                println!("outcome under schedule {:?}: {}", other, key2);
+                if key != key2 { hit = true; }
+            }
+            if hit { println!("VIOLATION property={} replay={}", prop, path); 1 } else { println!("no violation of {} on this schedule", prop); 0 }
         },
         other =>
         {
@@ -260,6 +648,13 @@ pub fn main() -> i32
         {
             if pos.is_empty() { eprintln!("replay needs a file"); return 2; }
             replay(&pos[0])
+        },
+        "dpor-debug" =>
+        {
+            let case = schedeng::case_by_name(&pos[0]).expect("case");
+            let prep = schedeng::prepare(&case).expect("prep");
+            schedeng::debug_trace(&case, &prep);
+            0
         },
         other =>
         {
